@@ -27,7 +27,7 @@ def rel_t(r):
 def fail_t(fl):
     if fl[0] is None:
         return "never_fails"
-    return "(mkFailing (Some %s) %s)" % (nat(fl[0]), z(fl[1]))
+    return "(mkFailing (Some %s) %s %s)" % (nat(fl[0]), z(fl[1]), "true" if (len(fl) > 2 and fl[2]) else "false")
 
 
 def src_t(s):
@@ -44,7 +44,7 @@ def src_t(s):
         return "(SChan %s)" % zlist(s["l"])
     evs = []
     for e in s["evs"]:
-        evs.append({"item": "EvItem", "transient": "EvTransient", "fatal": "EvFatal"}[e[0]] + " " + z(e[1]))
+        evs.append("EvPanic" if e[0] == "panic" else {"item": "EvItem", "transient": "EvTransient", "fatal": "EvFatal"}[e[0]] + " " + z(e[1]))
     return "(%s [%s])" % ("SScriptNC" if k == "scriptnc" else "SScript", "; ".join(evs))
 
 
@@ -85,7 +85,9 @@ def is_list_pipe(p):
 def prog_t(prog):
     if "reduce" in prog:
         r = prog["reduce"]
-        rt = {"collect": "RCollect", "one": "ROne", "sum": "RSum", "equalself": "REqualSelf"}.get(r[0])
+        rt = {"collect": "RCollect", "one": "ROne", "equalself": "REqualSelf"}.get(r[0])
+        if r[0] == "sum":
+            rt = "(RSum %s)" % fail_t(r[1] if len(r) > 1 else [None, 0])
         if r[0] == "last":
             rt = "(RLast %s)" % z(r[1])
         if r[0] == "equal":
@@ -232,6 +234,22 @@ def has_faults(p):
     return bad[0]
 
 
+def has_panics(case):
+    """Some callback, the reduction function or a source of the case panics."""
+    bad = [False]
+
+    def f(n):
+        if n["t"] == "src" and n["src"]["k"] in ("script", "scriptnc") and any(e[0] == "panic" for e in n["src"]["evs"]):
+            bad[0] = True
+        if "fl" in n and n["fl"][0] is not None and len(n["fl"]) > 2 and n["fl"][2]:
+            bad[0] = True
+    walk(case["cfg"]["pipe"], f)
+    red = case["cfg"]["prog"].get("reduce")
+    if red and red[0] == "sum" and len(red) > 1 and red[1][0] is not None:
+        bad[0] = True          # a failing reduction function (error or panic)
+    return bad[0]
+
+
 def documented_domain(p):
     ok = [True]
 
@@ -265,6 +283,7 @@ class PipeGen:
         self.rng = rng
         self.kind = kind          # "iter" | "stream"
         self.faults = faults      # allow scripted faults / failing callbacks / expired contexts
+        self.panics = False       # allow callbacks, reduction functions and scripted sources that panic
         self.nid = 0
         self.err = 10
 
@@ -315,13 +334,17 @@ class PipeGen:
                 self.err += 1
                 pos = r.randint(0, len(evs))
                 evs = evs[:pos] + [["fatal", self.err]]
+        if self.panics and r.random() < 0.15:
+            evs.insert(r.randint(0, len(evs)), ["panic"])
         return {"k": k, "evs": evs}
 
     def fl(self):
+        if self.panics and self.rng.random() < 0.25:
+            return [self.rng.choice([0, 1, 2, 4]), 0, True]          # the k-th invocation panics
         if self.kind == "stream" and self.faults and self.rng.random() < 0.25:
             self.err += 1
-            return [self.rng.choice([0, 1, 2, 4]), self.err]
-        return [None, 0]
+            return [self.rng.choice([0, 1, 2, 4]), self.err, False]
+        return [None, 0, False]
 
     def pred(self):
         r = self.rng
@@ -401,9 +424,16 @@ class PipeGen:
         listp = is_list_pipe(pipe)
         if not listp and self.kind == "iter" and documented_domain(pipe) and r.random() < 0.2:
             return {"reduce": ["equal", self.equal_others(pipe)], "live": True}
-        if not listp and r.random() < 0.35:
-            red = r.choice([["collect"], ["last", r.choice([0, 1, 2, max(0, total_guess - 1), total_guess, total_guess + 1])], ["one"], ["sum"]] +
+        if not listp and r.random() < (0.6 if self.panics else 0.35):
+            red = r.choice([["collect"], ["last", r.choice([0, 1, 2, max(0, total_guess - 1), total_guess, total_guess + 1])], ["one"], ["sum", [None, 0, False]]] +
                            ([["equalself"]] if self.kind == "iter" else []))
+            if self.panics and r.random() < 0.3:
+                red = ["sum", [None, 0, False]]
+            if red[0] == "sum" and (self.panics or (self.kind == "stream" and self.faults)) and r.random() < 0.4:
+                # the reduction function fails at its k-th call: by panicking, or (streams) by returning an error
+                pan = self.panics and (self.kind == "iter" or r.random() < 0.6)
+                self.err += 1
+                red = ["sum", [r.choice([0, 1, 2]), 0 if pan else self.err, pan]]
             live = True if not (self.kind == "stream" and self.faults) else r.random() < 0.85
             return {"reduce": red, "live": live}
         k = r.choice([0, 1, 2, total_guess, total_guess + 1, total_guess + 3])
@@ -417,8 +447,9 @@ class PipeGen:
         return {"steps": steps}
 
 
-def gen_case(rng, kind, faults):
+def gen_case(rng, kind, faults, panics=False):
     g = PipeGen(rng, kind, faults)
+    g.panics = panics
     depth = rng.choice([0, 1, 1, 2, 2, 3, 4])
     pipe = g.pl(depth) if rng.random() < 0.25 else g.pz(depth)
     try:
@@ -449,9 +480,10 @@ class PipeSpec(SeqSpec):
     component = "pipes"
     imports = "From Juniper Require Import Common.Base Iter.Syntax Iter.Config Iter.ModelBase Iter.IterModel Iter.StreamModel Iter.Corr."
 
-    def __init__(self, kind, faults, checker_suffix=""):
+    def __init__(self, kind, faults, checker_suffix="", panics=False):
         self.kind = kind
         self.faults = faults
+        self.panics = panics
         self.checkers = {"M": ("check_iter" if kind == "iter" else "check_stream") + checker_suffix}
         self.case_type = "icase"
         self.twin = {}
@@ -460,9 +492,9 @@ class PipeSpec(SeqSpec):
         n = int((500 if tier == "quick" else 8000) * scale)
         cases = []
         for _ in range(n):
-            c = gen_case(rng, self.kind, self.faults)
+            c = gen_case(rng, self.kind, self.faults, self.panics)
             cases.append(c)
-            if self.faults and (has_faults(c["cfg"]["pipe"]) or any(s[0] == "next" and s[1] is False for s in c["cfg"]["prog"].get("steps", []))):
+            if self.faults and not has_panics(c) and (has_faults(c["cfg"]["pipe"]) or any(s[0] == "next" and s[1] is False for s in c["cfg"]["prog"].get("steps", []))):
                 t = erase_faults(c)
                 t["twin_of_previous"] = True
                 cases.append(t)
@@ -495,7 +527,8 @@ class PipeSpec(SeqSpec):
         if any(r[0] in ("bad",) for r in results):
             fails.append(("bad-observation", "the harness could not observe a result: %r" % results))
         # ---- C07: documented sequence / reducers / sticky end (failure-free, documented parameter domain)
-        if domain and not faulty and not expired:
+        panicky = has_panics(case)
+        if domain and not faulty and not expired and not panicky:
             want = den(pipe)
             if "steps" in prog:
                 got, ended = [], False
@@ -557,7 +590,7 @@ class PipeSpec(SeqSpec):
                         if st is not None and st[0] == "next" and st[1] is True:
                             fails.append(("spurious-context-error", "step %d: a Next with a live context returned the context error" % i))
         # ---- C09 (streams): every owned source closed exactly once, no use after close
-        if self.kind == "stream" and not any(r[0] == "panic" for r in results):
+        if self.kind == "stream":      # (also when a call panicked and the caller recovered: reducers close by defer)
             closes = {}
             closed = set()
             for e in log:
